@@ -23,9 +23,25 @@ def normalise(data):
     return data.replace(b"\r\n", b"\n").replace(b"\r", b"\n")
 
 
+SKEWS = {"skew:crlf>cr": ("crlf", ["cr"]), "skew:cr>crlf": ("cr", ["crlf"]), "skew:lf>cr": ("lf", ["cr"]), "skew:crlf>cr>lf": ("crlf", ["cr", "cr", "lf"]),
+         "skew:cr>lf": ("cr", ["lf"]), "skew:crlf>lf": ("crlf", ["lf"])}
+
+
 def convert(r, data_lf, how):
     if how in NLS:
         return data_lf.replace(b"\n", NLS[how])
+    if how in SKEWS:
+        # a clear majority terminator plus a few others (about one line in six), never a CR directly before an empty LF line
+        major, minors = SKEWS[how]
+        parts = data_lf.split(b"\n")
+        out, prev = b"", None
+        for i, p in enumerate(parts[:-1]):
+            k = minors[(i // 6) % len(minors)] if i % 6 == 5 else major
+            if prev == "cr" and p == b"" and k == "lf":
+                k = major if major != "lf" else "crlf"
+            out += p + NLS[k]
+            prev = k
+        return out + parts[-1]
     parts = data_lf.split(b"\n")
     out = b""
     prev = None
@@ -86,6 +102,13 @@ def run(rep, build, tier, seed):
                 c = rc.Case("%s|in=%s|newlines=%s" % (bc.label, how, setting), bc.lang, base_cfg + "\nnewlines = %s\n" % setting, convert(r, lf, how))
                 c.group, c.setting, c.how = g, setting, how
                 cases.append(c)
+        if lf.count(b"\n") >= 12 and b"INDENT-OFF" not in lf:
+            for how in SKEWS:
+                data = convert(r, lf, how)
+                for setting in ["auto", SKEWS[how][0]]:
+                    c = rc.Case("%s|in=%s|newlines=%s" % (bc.label, how, setting), bc.lang, base_cfg + "\nnewlines = %s\n" % setting, data)
+                    c.group, c.setting, c.how = g, setting, how
+                    cases.append(c)
         groups.append(g)
 
     def oracle(R, findings):
@@ -112,6 +135,14 @@ def run(rep, build, tier, seed):
         if a and b and a[0] == 0 and b[0] == 0 and a[1].replace(b"\n", b"\r\n") != b[1]:
             rep.finding("subst|%s" % g["label"], "output under crlf is not the lf output with terminators replaced for %s" % g["label"],
                         {"kind": "format", "label": b[2].label, "lang": b[2].lang, "cfg": b[2].cfg_text, "cfg_path": None, "input_b64": common.b64(b[2].data)})
+        for how in SKEWS:
+            au, fx = runs.get(("auto", how)), runs.get((SKEWS[how][0], how))
+            if au and fx and au[0] == 0 and fx[0] == 0:
+                rep.count(key=(g["label"], how, "auto-majority"), nontrivial=True)
+                if au[1] != fx[1]:
+                    rep.finding("auto-majority|%s|%s" % (g["label"], how), "newlines=auto on an input whose clear majority terminator is %s does not use it (%s, %s)"
+                                % (SKEWS[how][0], how, g["label"]),
+                                {"kind": "format", "label": au[2].label, "lang": au[2].lang, "cfg": au[2].cfg_text, "cfg_path": None, "input_b64": common.b64(au[2].data)})
         for how in ["lf", "crlf", "cr"]:
             au, fx = runs.get(("auto", how)), runs.get((how, how))
             if au and fx and au[0] == 0 and fx[0] == 0 and au[1] != fx[1]:
